@@ -7,6 +7,7 @@ import OsacaVerif.Lemmas.DGEdges
 import OsacaVerif.Lemmas.Winding
 import OsacaVerif.Lemmas.EdgeLocal
 import OsacaVerif.Lemmas.LcdChar
+import OsacaVerif.Lemmas.CycleNorm
 /-
   C05 — Loop-carried dependencies are exactly the cross-iteration dependency cycles.
   (Model: `LCD.lcd`; independent oracle: `Spec.cycles`.)
@@ -474,6 +475,100 @@ theorem lcd_complete (isa : Isa) (fd : Bool) (par : Params) (floor : Nat) (k : L
       have := sum_perm ((sortPairs_perm' ((toLine (double (offsetOf floor k) k) (x :: rest)).map (back (offsetOf floor k)))).map (·.2))
       rw [normPath, this]
       simp [toLine, back, Function.comp_def]
+
+/-! ### each cycle is reported once: the key (the line list) determines the entry -/
+
+/-- **lcd_sound_normal** (∀ well-formed kernels): every reported entry *is*, literally, a dependency
+    cycle of the stream in normal form: positions `b₀ < b₁ < … < bₘ₋₁` inside the body, each
+    depending on the previous one and `b₀`'s next occurrence depending on `bₘ₋₁`; the entry's lines
+    are the lines at these positions (in this order), its latencies the edge latencies leaving them. -/
+theorem lcd_sound_normal (isa : Isa) (fd : Bool) (par : Params) (floor : Nat) (k : List Ins) (hwf : WFKernel k)
+    (e : Entry) (he : e ∈ lcd isa fd par floor k) :
+    ∃ b, IsStreamCycle (streamDep isa fd par k) k.length b ∧ (∀ y ∈ b, y.1 < k.length) ∧
+      (verts b).Pairwise (· < ·) ∧ e.lines = b.map (fun y => lineAt k y.1) ∧ e.lats = b.map (·.2) ∧
+      e.latency = (b.map (·.2)).sum := by
+  obtain ⟨a, hc, hst, hperm, _⟩ := lcd_sound isa fd par floor k hwf e he
+  obtain ⟨p, _, hl, ht, _, hsum, _⟩ := entry_latency _ _ e he
+  obtain ⟨hbc, hblt, hbinc, hbperm⟩ := cycle_normal _ k.length (streamDep_periodic isa fd par k) a hc hst
+  have hzip : e.lines.zip e.lats = normPath (offsetOf floor k) p := by rw [hl, ht, zip_fst_snd]
+  -- the candidate: the normal-form cycle read as (line, latency) pairs
+  have hbounds : ∀ y ∈ a, y.1 < 2 * k.length := by
+    cases a with
+    | nil => intro y hy; cases hy
+    | cons x rest =>
+      intro y hy
+      have := (cycle_bounds _ _ x rest hc y hy).2
+      have hx : x.1 < k.length := hst
+      omega
+  have hcperm : ((normPath k.length a).map (fun y => (lineAt k y.1, y.2))).Perm (cycleMembers k a) := by
+    refine (hbperm.map _).trans (List.Perm.of_eq ?_)
+    simp only [cycleMembers, List.map_map]
+    apply List.map_congr_left
+    intro y hy
+    have hy2 := hbounds y hy
+    simp only [Function.comp_apply, back, backLine]
+    by_cases hlt : y.1 < k.length
+    · rw [if_neg (by omega), Nat.mod_eq_of_lt hlt]
+    · rw [if_pos (by omega), Nat.mod_eq_sub_mod (by omega), Nat.mod_eq_of_lt (by omega)]
+  have hcsorted : ((normPath k.length a).map (fun y => (lineAt k y.1, y.2))).Pairwise le2 := by
+    rw [List.pairwise_map]
+    have : (normPath k.length a).Pairwise (fun x y => x.1 < y.1) := by
+      simpa [verts, List.pairwise_map] using hbinc
+    refine this.imp_of_mem ?_
+    intro x y hx hy hxy
+    exact Or.inl (wf_lineAt_lt k hwf x.1 y.1 hxy (hblt y hy))
+  have heq : e.lines.zip e.lats = (normPath k.length a).map (fun y => (lineAt k y.1, y.2)) := by
+    refine List.Perm.eq_of_pairwise (le := le2) (fun _ _ _ _ h1 h2 => le2_antisymm h1 h2) ?_ hcsorted
+      (hperm.trans hcperm.symm)
+    rw [hzip]; exact sortPairs_sorted _
+  refine ⟨normPath k.length a, hbc, hblt, hbinc, ?_, ?_, ?_⟩
+  · have : e.lines = (e.lines.zip e.lats).map (·.1) := by rw [hzip, hl]
+    rw [this, heq, List.map_map]; rfl
+  · have : e.lats = (e.lines.zip e.lats).map (·.2) := by rw [hzip, ht]
+    rw [this, heq, List.map_map]; rfl
+  · have : e.lats = (e.lines.zip e.lats).map (·.2) := by rw [hzip, ht]
+    rw [hsum, this, heq, List.map_map]; rfl
+
+/-- **lcd_key_collision_free**: the member lines determine the entry — two reported entries with the
+    same line list have the same latencies (they are the same cycle).  So keying the result by the
+    joined line numbers, as the code does, loses nothing. -/
+theorem lcd_key_collision_free (isa : Isa) (fd : Bool) (par : Params) (floor : Nat) (k : List Ins) (hwf : WFKernel k)
+    (e1 e2 : Entry) (h1 : e1 ∈ lcd isa fd par floor k) (h2 : e2 ∈ lcd isa fd par floor k)
+    (hlines : e1.lines = e2.lines) : e1.lats = e2.lats ∧ e1.latency = e2.latency := by
+  obtain ⟨b1, hc1, hlt1, _, hl1, ht1, hs1⟩ := lcd_sound_normal isa fd par floor k hwf e1 h1
+  obtain ⟨b2, hc2, hlt2, _, hl2, ht2, hs2⟩ := lcd_sound_normal isa fd par floor k hwf e2 h2
+  have hv : verts b1 = verts b2 := by
+    apply map_inj_on (lineAt k)
+    · intro x hx y hy hxy
+      obtain ⟨x', hx', rfl⟩ := List.mem_map.mp hx
+      obtain ⟨y', hy', rfl⟩ := List.mem_map.mp hy
+      exact wf_lineAt_inj k hwf _ _ (hlt1 x' hx') (hlt2 y' hy') hxy
+    · have := hl1.symm.trans (hlines.trans hl2)
+      simpa [verts, List.map_map, Function.comp_def] using this
+  have hb : b1 = b2 := by
+    cases b1 with
+    | nil => exact absurd hc1 (fun h => h)
+    | cons x1 r1 =>
+      cases b2 with
+      | nil => exact absurd hc2 (fun h => h)
+      | cons x2 r2 =>
+        have hx : x1.1 = x2.1 := by simpa [verts] using congrArg List.head? hv
+        have hc1' : Chain (streamDep isa fd par k) (x1.1 + k.length) (x1 :: r1) := hc1
+        have hc2' : Chain (streamDep isa fd par k) (x2.1 + k.length) (x2 :: r2) := hc2
+        rw [← hx] at hc2'
+        exact chain_determined _ _ _ _ hc1' hc2' hv
+  subst hb
+  exact ⟨ht1.trans ht2.symm, hs1.trans hs2.symm⟩
+
+/-- **lcd_reported_once**: no two reported entries have the same member lines — each dependency
+    cycle (as a set of member instructions) is reported exactly once. -/
+theorem lcd_reported_once (isa : Isa) (fd : Bool) (par : Params) (floor : Nat) (k : List Ins) (hwf : WFKernel k) :
+    (lcd isa fd par floor k).Pairwise (fun a b => a.lines ≠ b.lines) := by
+  have hd : (lcd isa fd par floor k).Pairwise (fun a b => ¬ (a.lines = b.lines ∧ a.lats = b.lats)) :=
+    post_dedup _ _
+  refine hd.imp_of_mem ?_
+  intro a b ha hb hab hl
+  exact hab ⟨hl, (lcd_key_collision_free isa fd par floor k hwf a b ha hb hl).1⟩
 
 -- non-vacuity: in the three-instruction ring (3 → 4 → 7 → 3') the stream positions 1 → 2 → 3 (= 0 one
 -- iteration later) → 4 (= 1 one iteration later) form a cycle starting inside the body; its members
